@@ -256,7 +256,7 @@ func runC11(c *report.Ctx) {
 				recv = n.Obj().Name()
 			}
 		}
-		if recv != "levelBucket" && recv != "transaction" && f.Name() != "deleteBucket" {
+		if recv != "levelBucket" && recv != "transaction" && nm(f) != "deleteBucket" {
 			continue
 		}
 		k := 0
@@ -363,7 +363,7 @@ func runC11(c *report.Ctx) {
 	if valid != nil {
 		d := ""
 		an.Instrs(valid, func(in ssa.Instruction) {
-			if call, ok := in.(*ssa.Call); ok && call.Call.StaticCallee() != nil && an.FuncKey(call.Call.StaticCallee()) == "strings.Index" {
+			if call, ok := in.(*ssa.Call); ok && call.Call.StaticCallee() != nil && an.CanonKeyOf(call.Call.StaticCallee()) == "strings.Index" {
 				d = p.Desc(call.Call.Args[1])
 			}
 		})
@@ -427,7 +427,7 @@ func ruleWriterLock(c *report.Ctx) {
 	rollback := fn(c, pkgLDB, "transaction", "Rollback")
 	isMu := func(in ssa.Instruction, name string) bool {
 		cc := an.CallOf(in)
-		if cc == nil || cc.StaticCallee() == nil || an.FuncKey(cc.StaticCallee()) != "(*sync.Mutex)."+name {
+		if cc == nil || cc.StaticCallee() == nil || an.CanonKeyOf(cc.StaticCallee()) != "(*sync.Mutex)."+name {
 			return false
 		}
 		if _, isDefer := in.(*ssa.Defer); isDefer {
@@ -441,7 +441,7 @@ func ruleWriterLock(c *report.Ctx) {
 		unl := false
 		an.Instrs(beginTx, func(in ssa.Instruction) {
 			cc := an.CallOf(in)
-			if cc != nil && cc.StaticCallee() != nil && an.FuncKey(cc.StaticCallee()) == "(*sync.Mutex).Unlock" {
+			if cc != nil && cc.StaticCallee() != nil && an.CanonKeyOf(cc.StaticCallee()) == "(*sync.Mutex).Unlock" {
 				unl = true
 			}
 		})
